@@ -128,14 +128,23 @@ def validate_trace(ctx, progs, name="trace validation"):
         for r, got in obs.items():
             lines.append({"prog": prog, "env": [list(p) for p in env_pairs], "out": wire_out(got)})
             index.append((prog, env_pairs, text, r, got))
-    batch = 20000
+    # TLC validates a trace with one worker; independent batches run as concurrent TLC processes
+    from concurrent.futures import ThreadPoolExecutor
+    from .core import NCPU
+    nb = max(1, min(NCPU // 2, len(lines) // 150))
+    batch = (len(lines) + nb - 1) // nb if lines else 1
+    starts = list(range(0, len(lines), batch))
     indef = 0
-    for s in range(0, len(lines), batch):
+
+    def one(s):
         tf = ctx.work / ("trace_%d.ndjson" % s)
         write_ndjson(tf, lines[s:s + batch])
         tr = ctx.tlc("Trace_Eval", "INIT Init\nNEXT Next\nPOSTCONDITION Post\nCHECK_DEADLOCK FALSE\n", workers=1,
                      env={"TRACE_FILE": str(tf)}, name=name)
-        rej, cons = trace_verdict(tr.stdout, len(lines[s:s + batch]))
+        return s, trace_verdict(tr.stdout, len(lines[s:s + batch]))
+    with ThreadPoolExecutor(nb) as ex:
+        verdicts = list(ex.map(one, starts))
+    for s, (rej, cons) in verdicts:
         indef += cons[3]
         for idx, expw in rej:
             prog, env_pairs, text, r, got = index[s + idx - 1]
